@@ -466,11 +466,17 @@ CHECKS["C20"] = {
 }
 
 
-# Minimum monitor observations for the thorough tier are calibrated from a full thorough run on the unchanged tree
-# (bin/calibrate writes 70% of what that run observed); the hand-written values above are only a fallback.
+# Minimum monitor observations are calibrated from runs on the unchanged tree at several seeds (bin/calibrate writes 70%
+# of the smallest value observed); the hand-written values above name the counters and are only a fallback.
 import json as _json, os as _os
-_cal = _os.path.join(_os.path.dirname(_os.path.abspath(__file__)), "require_thorough.json")
-if _os.path.exists(_cal):
-    for _cid, _req in _json.load(open(_cal)).items():
-        if _cid in CHECKS:
-            CHECKS[_cid].setdefault("require", {})["thorough"] = _req
+for _tier in ("quick", "thorough"):
+    _cal = _os.path.join(_os.path.dirname(_os.path.abspath(__file__)), f"require_{_tier}.json")
+    if _os.path.exists(_cal):
+        for _cid, _req in _json.load(open(_cal)).items():
+            if _cid in CHECKS:
+                _base = CHECKS[_cid].setdefault("require", {})
+                if _tier == "quick":
+                    # never raise a hand-written quick minimum, only lower it to what the seeds support
+                    _base["quick"] = {k: min(v, _req.get(k, v)) for k, v in _base.get("quick", {}).items()}
+                else:
+                    _base["thorough"] = _req
